@@ -30,7 +30,8 @@ NoCv == [kind |-> "none", fh |-> <<1>>, wl |-> 1, sl |-> 1, sww |-> TRUE]
 Snap(rej, f, c, times, cells, o, e, s) ==
     [rej |-> rej, fitted |-> f, cutoff |-> c, times |-> times, cells |-> cells,
      obs |-> Pairs(o), epoch |-> Pairs(e), sfh |-> s,
-     twinok |-> (f /\ c = MaxTime(o))]
+     twinok |-> (f /\ c = MaxTime(o)),
+     cutver |-> (IF f /\ c \in Dom(o) THEN o[c] ELSE 0)]   \* version of the observation at the cutoff
 Entry(op, lo, hi, upd, fh, cv, exp) ==
     [op |-> op, lo |-> lo, hi |-> hi, ver |-> Ver, upd |-> upd, fh |-> fh, cv |-> cv, exp |-> exp]
 Log(e) == hist' = Append(hist, e)
